@@ -159,7 +159,12 @@ class Namespace(MutableMapping):
 
     def is_immutable_value(self, name):
         ns = self.nonlocals.get(name, self)
-        return name in ns.immutables
+        while ns is not None:
+            # (a nested function sees the variable of the enclosing one)
+            if name in ns.names:
+                return name in ns.immutables
+            ns = ns.parent
+        return False
 
     def set_immutable_value(self, name):
         ns = self.nonlocals.get(name, self)
@@ -368,15 +373,14 @@ class CallListerVisitor(ast.NodeVisitor):
         # the element is evaluated once per item, like the body of a loop:
         # look at it once for what it does to the names, then again for the
         # calls (see visit_For)
+        calls, to_revisit = len(self.calls), len(self.to_revisit)
         for generator in node.generators:
             self.visit(generator)
-        calls, to_revisit = len(self.calls), len(self.to_revisit)
         for expr in elements:
             self.visit(expr)
         del self.calls[calls:], self.to_revisit[to_revisit:]
         for generator in node.generators:
-            for cond in generator.ifs:
-                self.visit(cond)
+            self.visit(generator)
         for expr in elements:
             self.visit(expr)
 
@@ -424,9 +428,11 @@ class CallListerVisitor(ast.NodeVisitor):
             self.visit(node.value)
             return
         marker = self.namespace.get(node.value.id)
-        if isinstance(marker, Arg):
-            # an attribute of a parameter that is taken without being called
-            # (a bound method kept for later) can do what a method call can
+        if marker is not None and (
+                marker is self.varargs or marker is self.varkwargs):
+            # an attribute of a star parameter that is taken without being
+            # called (a bound method kept for later: pop = kwargs.pop) can do
+            # what a method call can
             marker.tainted = node
             if self.namespace.parent is not None:
                 self.late_tainted.append(marker)
@@ -563,11 +569,12 @@ def forward_signatures(func, calls, args, kwargs, sig):
         try:
             fwdargsvals.extend(rn(fwdvarargs))
             fwdkwargsvals.update(rn(fwdvarkwargs))
-        except (TypeError, ValueError):
+        except Exception:
             # what is spread into the call is, for now, not a sequence
-            # or not a mapping (None until it is set, say)
+            # or not a mapping (None until it is set, say), or fails
+            # in its own way when it is iterated
             raise UnknownForwards
-        using_partial = wrapped_func == functools.partial
+        using_partial = wrapped_func is functools.partial
         if using_partial:
             if not fwdargsvals:
                 # partial(*args, **kwargs): the function it wraps is unknown
@@ -576,7 +583,9 @@ def forward_signatures(func, calls, args, kwargs, sig):
         try:
             wrapped_sig = forged_signature(
                 wrapped_func, args=fwdargsvals, kwargs=fwdkwargsvals)
-        except (ValueError, TypeError):
+        except Exception:
+            # whatever the callee raises when it is looked at (a dead proxy,
+            # an unbound lazy object) says nothing about func
             raise UnknownForwards
         try:
             ausig = _signatures.forwards(
